@@ -1561,7 +1561,16 @@ impl HasChildren for XmlDocument {
                     .document_element()
                     .map(|v| v.borrow().id() != value.id())
                     .unwrap_or(false);
-                if other {
+                // The document type declaration precedes the document element.
+                let before_doctype = id
+                    .and_then(|id| self.child_index(id))
+                    .map(|index| {
+                        let children = self.children.borrow();
+                        let mut rest = children.iter().skip(index);
+                        rest.any(|v| matches!(&**v, XmlItem::DocumentType(_)))
+                    })
+                    .unwrap_or(false);
+                if other || before_doctype {
                     Err(error::Error::InvalidType)
                 } else {
                     add_or_insert(self, value.clone(), id);
